@@ -305,7 +305,7 @@ def setup_frame(E):
 CNT = CLIENT + '._connect_new_transport'
 
 
-@harness('c16.setup_precedes_everything', ['C16', 'C08', 'C17'], functions=[CLIENT + '.connect', CNT, CLIENT + '._get_new_transport', BASE + '.connect'],
+@harness('c16.setup_precedes_everything', ['C16', 'C08', 'C17', 'C15'], functions=[CLIENT + '.connect', CNT, CLIENT + '._get_new_transport', BASE + '.connect'],
          replay='c16_setup_first',
          assumptions=['the sender task dequeues only after awaiting the transport future (RSocketBase._sender); so SETUP is the first frame '
                       'written iff at every suspension point of connect():  transport future resolved  =>  SETUP already queued at the head',
@@ -371,7 +371,7 @@ def setup_first(E):
             len([x for x in q if is_frame(x, 'LeaseFrame')]) == state.get('leases', 0) and is_frame(q[0], 'SetupFrame'))
     E.prove('connect:at_every_suspension_transport_resolved_implies_SETUP_queued[%s]' % ('transport.connect() suspends' if suspends_connect else 'transport.connect() does not suspend'),
             state['violated'] is None)
-    E.prove('@C17:connect:whenever_the_new_tasks_can_run_the_server_is_considered_alive[also after a keepalive timeout]',
+    E.prove('@C17,C15:connect:whenever_the_new_tasks_can_run_the_server_is_considered_alive[also after a keepalive timeout]',
             state.get('dead') is None and sock.attrs.get('_is_server_alive') is True)
     E.prove('connect:transport_future_resolved_with_the_provided_transport', nt.attrs['state'] == 'result' and nt.attrs['value'] is transport)
     E.prove('connect:transport_connected_once', len(log.of(transport, 'connect')) == 1)
@@ -470,7 +470,7 @@ def handle_setup(E):
 
 # =========================================================================== C17 reconnect / C11 close
 
-@harness('c17.connect_gives_fresh_state', ['C17', 'C13', 'C14', 'C03', 'C10'], functions=[CLIENT + '.connect', BASE + '._reset_internals', BASE + '._start_tasks',
+@harness('c17.connect_gives_fresh_state', ['C17', 'C13', 'C14', 'C03', 'C10', 'C15'], functions=[CLIENT + '.connect', BASE + '._reset_internals', BASE + '._start_tasks',
                                                                            SC + '.__init__'],
          replay='c17_reconnect',
          assumptions=['pre-state arbitrary: any old stream table / queues / lease, alive flag either value (previous connection ended by EOF, '
@@ -652,7 +652,7 @@ def receiver_exit(E):
 SND = BASE + '._sender'
 
 
-@harness('c11.sender_exit', ['C11'], functions=[SND, CLIENT + '._finally_sender'],
+@harness('c11.sender_exit', ['C11', 'C15', 'C17'], functions=[SND, CLIENT + '._finally_sender'],
          assumptions=['Transport.send_frame is abstract and may raise RSocketTransportError (wrapped transport failure); '
                       'the connection-closed clean-up belongs to the receiver (c11.receiver_exit): the sender must not run it a second time'])
 def sender_exit(E):
@@ -662,7 +662,17 @@ def sender_exit(E):
     sock.attrs['_send_queue'] = q
     E.call(E.getattr(q, 'put_nowait'), [SOpaque('frame', 'f1', attrs={'sent_future': None}, props={'isinstance:FrameFragmentMixin': False})])
     transport = SOpaque('transport', 'transport')
-    tf = aio.new_future(E, 'result', transport)
+    # the transport may still be being established when the sender task starts (client: the future of connect())
+    late = E.path.choice(2, 'transport-available-only-later') == 1
+    tf = aio.new_future(E) if late else aio.new_future(E, 'result', transport)
+    at_wait = []
+
+    def on_suspend(E_, what):
+        if what[0] == 'future' and what[1] is tf:
+            at_wait.append(list(order))
+            tf.attrs['state'], tf.attrs['value'] = 'result', transport
+        return None
+    E.suspend_hook = on_suspend
     E.stubs[SERVER + '._current_transport'] = lambda E_, f, a, k: tf
     how = E.path.choice(3, 'write-outcome')
     terr = E.make_exc(E.lookup('rsocket/exceptions.py::RSocketTransportError'))
@@ -690,6 +700,8 @@ def sender_exit(E):
         E.prove('sender:transport_errors_and_cancellation_are_absorbed', False)
         return
     E.cover('sender-ended')
+    E.prove('@C15,C11,C17:sender:nothing_is_started_while_the_transport_is_still_being_established[keepalives start with the connection, not before]',
+            at_wait == ([[]] if late else []))
     E.prove('sender:only_its_own_hooks_run[start hook once before the first write - it starts the keepalives -, finaliser once at the end; '
             'close notification and stream clean-up are the receiver\'s job]', order == ['before_sender[0 frames written]', 'finally_sender'])
 
